@@ -146,6 +146,31 @@ func main() {
 		}
 		return lib.Hex(out[:20])
 	})
+	// ip4store2 <S|A> <hex20 header, checksum field possibly already filled>: completing the same header again
+	// (SetPayload / AppendPayload called a second time on one buffer, or on a header taken from the wire)
+	r.Register("ip4store2", func(a []string) string {
+		h := lib.UnHex(a[1])
+		buf := make([]byte, packet.EthMaxSize)
+		copy(buf, h)
+		tl := int(h[2])<<8 | int(h[3])
+		if tl < 20 || tl > len(buf) {
+			return "skip"
+		}
+		var out packet.IP4
+		if a[0] == "A" {
+			var err error
+			out, err = packet.IP4(buf[:20:len(buf)]).AppendPayload(make([]byte, tl-20), h[9])
+			if err != nil {
+				return "err"
+			}
+		} else {
+			out = packet.IP4(buf[:20:len(buf)]).SetPayload(make([]byte, tl-20), h[9])
+		}
+		if !verifies(out[:20]) {
+			r.Viol("ip4-header-verify", "IPv4 header re-completed by SetPayload/AppendPayload does not verify: "+lib.Hex(out[:20]), "ip4store2 "+a[0]+" "+a[1])
+		}
+		return lib.Hex(out[:20])
+	})
 	// icmp4fin <msg, checksum field zero>: what icmp4SendPacket makes of it (via ICMP4SendEchoRequest-like path:
 	// ICMP(p).SetChecksum(Checksum(p))), plus the verdict of the independent verifier
 	r.Register("icmp4fin", func(a []string) string {
@@ -265,6 +290,26 @@ func main() {
 		}
 		r.Case("ip4store", []string{lib.Hex(pre)}, lib.Hex(outp[:20]))
 		r.Stat("class.ip4store."+which, 1)
+		// completion is idempotent: the same header completed again (checksum field already filled), with the
+		// same and with a changed length / protocol, and with arbitrary bytes left in the checksum field
+		done := append([]byte{}, outp[:20]...)
+		mode := "S"
+		if rng.Bool() {
+			mode = "A"
+		}
+		r.Do("ip4store2", mode, lib.Hex(done))
+		again := append([]byte{}, done...)
+		pl2 := rng.Pick(0, 1, 8, 100, 1480)
+		again[2], again[3] = byte((20+pl2)>>8), byte(20+pl2)
+		again[9] = rng.Byte()
+		r.Do("ip4store2", mode, lib.Hex(again))
+		junk := append([]byte{}, pre...)
+		junk[10], junk[11] = rng.Byte(), rng.Byte()
+		if rng.Chance(30) {
+			junk[10], junk[11] = 0xff, 0xff
+		}
+		r.Do("ip4store2", mode, lib.Hex(junk))
+		r.Stat("class.ip4store2."+mode, 3)
 		if !verifies(outp[:20]) {
 			r.Viol("ip4-header-verify", "IPv4 header written by "+which+" does not verify: "+lib.Hex(outp[:20]), "ip4store "+lib.Hex(pre))
 		}
